@@ -85,7 +85,7 @@ def gen_leaf(rng, depth):
         return {'t': 'array', 'dtype': rng.choice(['f8', 'f8', 'f8', 'i8',
                                                    'b1', 'f4', 'i4']),
                 'shape': shape, 'seed': rng.randrange(2**31),
-                'nan': rng.random() < 0.1}
+                'nan': rng.random() < 0.1, 'inf': rng.random() < 0.06}
     if r < 0.70:
         n = rng.randint(0, 6)
         kind = rng.choice(['f', 'i', 'mixed'])
@@ -229,6 +229,8 @@ def mat_leaf(leaf):
             a = rs.uniform(-1e3, 1e3, size=shape).astype(dt)
             if leaf.get('nan') and a.size:
                 a.flat[0] = np.nan
+            if leaf.get('inf') and a.size:
+                a.flat[-1] = -np.inf if leaf['seed'] % 2 else np.inf
         elif dt[0] == 'i':
             a = rs.randint(-1000, 1000, size=shape).astype(dt)
         else:
